@@ -1,9 +1,88 @@
-(* C20 placeholder, replaced once proofs are in *)
+(* C20: the hash set behaves as a bounded set.  Property theorems only.
+   Model: coq/model/HashSet.v -- (A) the Go arrays (ha, next, freeNode, length, pool slots) with
+   add/del/exist/getFreeNode/recyleNode as in hash_set.go / node_pool.go (after the fix of nodePool.add,
+   /repo commit 9e3ff23), (B) buckets as key lists, (S) a bounded mathematical set.
+   The hash function is a universally quantified variable. *)
 From Coq Require Import List ZArith Bool.
-From Bfe Require Import lib.Val model.HashSet run.RunC20.
+From Bfe Require Import lib.Val lib.ValProofs model.HashSet run.RunC20 proofs.HashSetProofs proofs.HashSetArrayProofs.
 Import ListNotations.
 Open Scope Z_scope.
-Example C20_smoke : snd (run_ops {| cap := 2; ksz := 2; fixed := false |} (init {| cap := 2; ksz := 2; fixed := false |})
-   [OAdd [1] 3; OAdd [1] 3; OExist [1] 3; OLen; ORemove [1] 3; OLen]) = [0; 0; 1; 1; 0; 0].
-Proof. exact eq_refl. Qed.
-Print Assumptions C20_smoke.
+
+(* HEADLINE (array level, all histories).  For every hash function (murmur3, fnv, a constant = all keys
+   collide, ...), every capacity > 0, element size, fixed-length flag and EVERY sequence of Add / Remove /
+   Exist / Len whose hash column is the hash of the key (`consistent hash`): the answers computed on the Go
+   arrays -- bucket heads `ha`, `next` links, the free-node list, `length`, the byte-pool slots -- equal the
+   answers of a bounded mathematical set: Add answers "full" exactly when the set holds cap elements and then
+   changes nothing; keys longer than the element size are rejected by every operation; a fixed-length set
+   refuses shorter keys; Exist is membership; Len is the cardinality.  Free-list reuse after removals,
+   deletion at the head / in the middle / at the end of a collision chain are all covered. *)
+Theorem C20_refines_set : forall (hash : key -> Z) (c : cfg) (ops : list op),
+  0 < cap c -> Forall (consistent hash) ops ->
+  snd (run_ops c (init c) ops) = sp_run c [] ops.
+Proof. exact array_refines_set. Qed.
+Print Assumptions C20_refines_set.
+
+(* The two halves of the headline: arrays -> bucket lists needs no assumption on the hash column at all
+   (representation invariant Abs: chains acyclic, pairwise disjoint, disjoint from the free list, chain keys =
+   bucket list, |free list| = cap - length) ... *)
+Theorem C20_array_refines_buckets : forall c ops,
+  0 < cap c -> snd (run_ops c (init c) ops) = bl_run c bl_init ops.
+Proof. exact array_refines_bl. Qed.
+Print Assumptions C20_array_refines_buckets.
+
+(* ... and bucket lists -> set holds for every configuration. *)
+Theorem C20_buckets_refine_set : forall (hash : key -> Z) (c : cfg) (ops : list op),
+  Forall (consistent hash) ops -> bl_run c bl_init ops = sp_run c [] ops.
+Proof. exact bl_refines_set. Qed.
+Print Assumptions C20_buckets_refine_set.
+
+(* Adding to a full set fails and changes nothing -- in EVERY state (no corruption of existing members). *)
+Theorem C20_full_fails_clean : forall c s k h, cap c <= len s -> step c s (OAdd k h) = (s, 1).
+Proof. exact full_fails_clean. Qed.
+Print Assumptions C20_full_fails_clean.
+
+(* A key longer than the element size is rejected by every operation and the state is unchanged. *)
+Theorem C20_long_key_rejected : forall c s k h, ksz c < klen k ->
+  (len s < cap c -> step c s (OAdd k h) = (s, 2)) /\
+  step c s (ORemove k h) = (s, 2) /\ step c s (OExist k h) = (s, 0).
+Proof. exact long_key_rejected. Qed.
+Print Assumptions C20_long_key_rejected.
+
+(* Fixed code: a short key offered to a fixed-length set is refused with the pool's error and the arrays are
+   exactly as before (the node taken from the free list is given back).  Before the fix Add returned nil, Len
+   grew and the stale slot content became a member (corpus/C20/fixed_short_key.case). *)
+Theorem C20_fixed_short_key_refused : forall c s k h,
+  fixed c = true -> klen k < ksz c -> len s < cap c ->
+  0 <= free s < Z.of_nat (length (nxt s)) ->
+  np_exist (fuel_of c) s (getZ (ha s) (bucket c h)) k = Some false ->
+  step c s (OAdd k h) = (s, 3).
+Proof. exact fixed_short_key_refused. Qed.
+Print Assumptions C20_fixed_short_key_refused.
+
+(* The executable lock-step check (representation invariant + abstraction after every operation) that
+   agree_C20 evaluates on every harness history is sound for what it claims. *)
+Theorem C20_sim_check_sound : forall c ops s b,
+  sim_check c s b ops = true -> snd (run_ops c s ops) = bl_run c b ops.
+Proof. exact sim_check_sound. Qed.
+Print Assumptions C20_sim_check_sound.
+
+(* The executable property evaluated by the harness on the implementation's answers holds of the model on
+   every decodable input whose hash column comes from one function. *)
+Theorem C20_prop_of_model : forall v c ops (hash : key -> Z),
+  dec_input v = Some (c, ops) -> Forall (consistent hash) ops -> prop_C20 v (run_C20 v) = true.
+Proof. exact prop_C20_of_model. Qed.
+Print Assumptions C20_prop_of_model.
+
+(* Non-vacuity: capacity 3, constant hash (one chain): fill, overflow, remove from the middle of the chain,
+   free-list reuse, over-long key; and a fixed-length set refusing a short key. *)
+Example C20_history :
+  snd (run_ops ex_cfg (init ex_cfg) ex_ops) = [0; 0; 0; 3; 1; 1; 0; 0; 1; 1; 2; 0; 1; 3; 1; 0; 0; 2]
+  /\ sp_run ex_cfg [] ex_ops = snd (run_ops ex_cfg (init ex_cfg) ex_ops)
+  /\ sim_check ex_cfg (init ex_cfg) bl_init ex_ops = true
+  /\ Forall (consistent (fun _ => 7)) ex_ops.
+Proof. exact ex_run. Qed.
+Example C20_fixed_short :
+  let c := {| cap := 2; ksz := 2; fixed := true |} in
+  snd (run_ops c (init c) [OAdd [1;1] 1; OAdd [1] 1; OLen; OExist [1] 1; OExist [1;1] 1; ORemove [1] 1; OLen])
+  = [0; 3; 1; 0; 1; 0; 1].
+Proof. exact ex_fixed_short. Qed.
